@@ -258,6 +258,34 @@ func (c *Ctx) storeOptionsFromConfig() {
 		if depth > 6 {
 			return false
 		}
+		// the result of a new helper: what it returns on its successful returns (leaves() would mix
+		// in the zero value it hands back next to an error)
+		if hc, hidx := callOf(v); hc != nil {
+			if h := directCallee(hc); h != nil && newHelpers[h] && h.Blocks != nil {
+				all, some := true, false
+				for _, r := range returnsOf(h) {
+					if nr := len(r.Results); nr >= 2 && isErrorType(r.Results[nr-1].Type()) && constructedNonNil(unspill(r, r.Results[nr-1]), r.Block(), 0) {
+						continue
+					}
+					if hidx >= len(r.Results) || !derives(unspill(r, r.Results[hidx]), depth+1) {
+						all = false
+					}
+					some = true
+				}
+				return all && some
+			}
+		}
+		// the parameter of a new helper: what its call sites pass
+		if prm, isP := v.(*ssa.Parameter); isP {
+			if as := boundArgs(prm); len(as) > 0 {
+				for _, a := range as {
+					if !derives(a, depth+1) {
+						return false
+					}
+				}
+				return true
+			}
+		}
 		ls := leaves(v)
 		if len(ls) == 0 {
 			return false
@@ -280,6 +308,10 @@ func (c *Ctx) storeOptionsFromConfig() {
 					if h := directCallee(call); h != nil && newHelpers[h] && h.Blocks != nil {
 						all := true
 						for _, r := range returnsOf(h) {
+							// (a return that hands back an error next to zero options is not a source of options)
+							if nr := len(r.Results); nr >= 2 && isErrorType(r.Results[nr-1].Type()) && constructedNonNil(unspill(r, r.Results[nr-1]), r.Block(), 0) {
+								continue
+							}
 							if len(r.Results) == 0 || !derives(unspill(r, r.Results[0]), depth+1) {
 								all = false
 							}
